@@ -3,10 +3,10 @@ import Model.C18.Fee
 `amount.py` and the `FeeRate` unit conversions, with Python's `Decimal` modelled as the exact
 rational it denotes: sign, coefficient, exponent (value = ±coeff·10^exp), or NaN / ±Infinity.
 Parsing a string into a Decimal is Python's (the harness hands the model `Decimal(str(x)).as_tuple()`);
-what is modelled is every decision taken on the parsed value.  The arithmetic the source performs
-under the ambient decimal context is modelled as EXACT: that is what the default context (28 digits)
-delivers on this range — and exactly what a caller-lowered precision breaks (see the harness
-oracle `amount.context`).
+what is modelled is every decision taken on the parsed value.  The Decimal arithmetic of the source
+is modelled as EXACT: the source pins a sufficient precision in a local context for each product /
+quantize / normalize, so the caller's decimal context does not enter (harness oracles `amount.context`,
+`feerate.context` check exactly that on the real code).
 -/
 namespace Btc.C18
 open Btc Btc.Py
@@ -20,14 +20,16 @@ inductive Dec
 /-- value · 10^k when that is a whole number (of absolute value `n`), else none -/
 def scaled (k : Nat) (coeff : Nat) (exp : Int) : Option Nat :=
   let e := exp + k
-  if e ≥ 0 then some (coeff * 10 ^ e.toNat)
+  if coeff = 0 then some 0          -- zero at any exponent (no power of ten is built for it)
+  else if e ≥ 0 then some (coeff * 10 ^ e.toNat)
   else
     let d := 10 ^ (-e).toNat
     if coeff % d = 0 then some (coeff / d) else none
 
 /-- |value| ≤ m, for a natural m -/
 def absLe (coeff : Nat) (exp : Int) (m : Nat) : Bool :=
-  if exp ≥ 0 then coeff * 10 ^ exp.toNat ≤ m else coeff ≤ m * 10 ^ (-exp).toNat
+  if coeff = 0 then true
+  else if exp ≥ 0 then coeff * 10 ^ exp.toNat ≤ m else coeff ≤ m * 10 ^ (-exp).toNat
 
 /-- `Decimal.normalize()`: trailing zeros of the coefficient moved into the exponent; zero is `0E0`. -/
 def stripZeros : Nat → Nat → Int → Nat × Int
